@@ -288,4 +288,38 @@ theorem int_pairs_sane (a b : Int) : Sane valOps (.int a) (.int b) := by
       simp only [decide_eq_decide]
       omega
 
+
+/-! ## 5. the class-identity guard of the generated comparison methods -/
+
+open C30Cmp in
+/-- the guard of the pinned source passes exactly the same-class operands (re-checked on the current source) -/
+theorem exact_guard_wf : GuardWF .exact := by decide
+
+open C30Cmp in
+/-- for EVERY class relation of the operands (same / subclass / superclass / unrelated, and whether or not
+`other` is an instance of the defining class), any number of fields and any value type: the generated
+method answers NotImplemented exactly when CPython's does, and otherwise compares like it (sane values) -/
+theorem method_agree_partial {α} (g : Guard) (hg : GuardWF g) (O : Ops α) (op : Op) (rel : Rel)
+    (inDef : Bool) (ps : List (α × α)) (h : ∀ p ∈ ps, Sane O p.1 p.2) :
+    cyMethod g O op rel inDef ps = pyMethod O op rel ps :=
+  cyMethod_eq_pyMethod g hg O op rel inDef ps h
+
+open C30Cmp in
+/-- all four relations, concretely: only `same` reaches the field comparison -/
+theorem method_four_cases (op : Op) (inDef : Bool) (ps : List (Val × Val)) :
+    cyMethod .exact valOps op .sub inDef ps = none ∧ cyMethod .exact valOps op .super inDef ps = none ∧
+    cyMethod .exact valOps op .unrelated inDef ps = none ∧
+    cyMethod .exact valOps op .same inDef ps = some (cyCmp valOps op ps) := by
+  refine ⟨rfl, rfl, rfl, rfl⟩
+
+open C30Cmp in
+/-- an `isinstance(other, <defining class>)` guard is NOT enough: a subclass operand with equal base fields
+compares equal (CPython: NotImplemented, so `P(1) == Q(1)` is False) -/
+theorem isinstance_guard_fails :
+    ¬ GuardWF .isinstance ∧
+    cyMethod .isinstance valOps .eq .sub true [(.int 1, .int 1)] = some (.ok true) ∧
+    pyMethod valOps .eq .sub [(.int 1, .int 1)] = none ∧
+    cyMethod .isinstance valOps .lt .unrelated true [(.int 1, .int 2)] = some (.ok true) := by
+  decide
+
 end CyVerif.C30
